@@ -21,6 +21,8 @@ import (
 	"math"
 	"math/big"
 	"net"
+	"runtime"
+	"runtime/debug"
 	"strings"
 	"sync"
 	"testing"
@@ -205,6 +207,7 @@ type v17Inner struct {
 	samples []v17Sample
 	first   time.Time
 	seed    byte
+	base    int64 // position of the inner connection's first byte in the whole stream (bytes before it were prefetched)
 	shared  *v17Shared
 }
 
@@ -231,7 +234,7 @@ func (c *v17Inner) Read(p []byte) (int, error) {
 		n = int(rem)
 	}
 	for i := 0; i < n; i++ {
-		p[i] = v17Byte(c.seed, c.off+int64(i))
+		p[i] = v17Byte(c.seed, c.base+c.off+int64(i))
 	}
 	c.off += int64(n)
 	c.asked = append(c.asked, len(p))
@@ -364,7 +367,21 @@ func v17ReadCases(out *vOut, r *vRng, n int) {
 		if r.Intn(3) == 0 {
 			chunk = 1 + r.Intn(30)
 		}
-		inner := &v17Inner{size: avail, chunk: chunk, seed: byte(i), errWith: r.Intn(4)}
+		// bytes the layer4 connection holds already when throttle runs (prefetched for matching), part
+		// of which an earlier handler may have consumed
+		var prefix []byte
+		consumed := 0
+		if r.Intn(2) == 0 {
+			prefix = make([]byte, 1+r.Intn(60))
+			for k := range prefix {
+				prefix[k] = v17Byte(byte(i), int64(k))
+			}
+			if r.Intn(2) == 0 {
+				consumed = r.Intn(len(prefix) + 1)
+			}
+		}
+		pre := int64(len(prefix) - consumed)
+		inner := &v17Inner{size: avail, chunk: chunk, seed: byte(i), errWith: r.Intn(4), base: int64(len(prefix))}
 		var lens []int64
 		for k := 1 + r.Intn(12); k > 0; k-- {
 			switch r.Intn(5) {
@@ -378,16 +395,39 @@ func v17ReadCases(out *vOut, r *vRng, n int) {
 				lens = append(lens, int64(1+r.Intn(80)))
 			}
 		}
-		input := map[string]any{"cfg": c.coq(), "inner_stream_bytes": avail, "inner_max_per_read": chunk, "read_lengths": lens,
+		input := map[string]any{"cfg": c.coq(), "prefetched_bytes": len(prefix), "of_which_consumed_before_throttle": consumed, "inner_stream_bytes": avail, "inner_max_per_read": chunk, "read_lengths": lens,
 			"inner_final_error": []string{"io.EOF after the data", "io.EOF together with the last bytes", "reset together with the last bytes", "reset after the data"}[inner.errWith]}
 		var got []byte
-		var ns, rerrs []int
+		var ns, rerrs, innerIdx []int
 		consT, consL := int64(-1), int64(-1)
-		cx := layer4.WrapConnection(inner, nil, zap.NewNop())
+		cx := layer4.WrapConnection(inner, prefix, zap.NewNop())
+		if len(prefix) > 0 && r.Bool() {
+			// a real matcher round over the prefetched bytes first (freeze, read, rewind)
+			peek := 1 + r.Intn(len(prefix)+4)
+			_, _ = layer4.MatcherSet{v17PeekMatcher{peek}}.Match(cx)
+		}
+		if consumed > 0 {
+			head := make([]byte, consumed)
+			if m, err := io.ReadFull(cx, head); m != consumed || err != nil || !bytes.Equal(head, prefix[:consumed]) {
+				out.Fail("C17:harness:prefix-read", fmt.Sprintf("reading %d prefetched bytes before the handler: n=%d err=%v", consumed, m, err), input)
+				cancel()
+				continue
+			}
+		}
 		herr := h.Handle(cx, layer4.HandlerFunc(func(cx *layer4.Connection) error {
 			for _, l := range lens {
 				p := make([]byte, l)
+				inner.mu.Lock()
+				before := len(inner.asked)
+				inner.mu.Unlock()
 				m, rerr := cx.Read(p)
+				inner.mu.Lock()
+				if len(inner.asked) > before {
+					innerIdx = append(innerIdx, before)
+				} else {
+					innerIdx = append(innerIdx, -1)
+				}
+				inner.mu.Unlock()
 				ns = append(ns, m)
 				rerrs = append(rerrs, v17ErrCode(rerr))
 				got = append(got, p[:m]...)
@@ -412,13 +452,14 @@ func v17ReadCases(out *vOut, r *vRng, n int) {
 			out.Fail("C17:handle:error", fmt.Sprint(herr), input)
 			continue
 		}
-		// oracle: stream intact, inner read sizes within batch
+		// oracle: stream intact (what was prefetched and not yet consumed, then the inner stream),
+		// inner read sizes within batch
 		want := make([]byte, len(got))
 		for k := range want {
-			want[k] = v17Byte(inner.seed, int64(k))
+			want[k] = v17Byte(inner.seed, int64(consumed+k))
 		}
-		if !bytes.Equal(got, want) || int64(len(got)) != inner.off {
-			out.Fail("C17:stream:bytes-differ", fmt.Sprintf("delivered %d bytes, inner handed over %d; first difference at %d", len(got), inner.off, v17Diff(got, want)), input)
+		if !bytes.Equal(got, want) || int64(len(got)) != pre-v17BufferLeft(pre, lens)+inner.off {
+			out.Fail("C17:stream:bytes-differ", fmt.Sprintf("the connection held %d prefetched bytes, the inner connection handed over %d; the next handler received %d bytes, first difference at %d", pre, inner.off, len(got), v17Diff(got, want)), input)
 		}
 		var obs, ret []string
 		var ierrs []int64
@@ -429,34 +470,54 @@ func v17ReadCases(out *vOut, r *vRng, n int) {
 			if inner.errs[k] != 0 && inner.gave[k] > 0 {
 				withData = true
 			}
-			if k < len(rerrs) {
-				ret = append(ret, fmt.Sprintf("(%d,%d)", ns[k], rerrs[k]))
-				if inner.errs[k] != rerrs[k] {
-					out.Fail("C17:read:error-not-passed-on", fmt.Sprintf("Read %d: inner Read returned (%d, error code %d), Read returned (%d, error code %d)", k, inner.gave[k], inner.errs[k], ns[k], rerrs[k]), input)
-				}
-				if ns[k] != inner.gave[k] {
-					out.Fail("C17:stream:bytes-differ", fmt.Sprintf("Read %d: inner Read returned %d bytes (error code %d) but Read returned %d", k, inner.gave[k], inner.errs[k], ns[k]), input)
-				}
-			}
 		}
-		for k, a := range inner.asked {
-			b := lens[k]
+		rest := pre // the harness's own account of the buffer
+		planOK := true
+		for i, l := range lens {
+			ret = append(ret, fmt.Sprintf("(%d,%d)", ns[i], rerrs[i]))
+			k := innerIdx[i]
+			if rest > 0 {
+				n := l
+				if rest < n {
+					n = rest
+				}
+				rest -= n
+				if k >= 0 || int64(ns[i]) != n || rerrs[i] != 0 {
+					planOK = false
+					out.Fail("C17:stream:prefetched-not-first", fmt.Sprintf("Read %d (len %d) with %d prefetched bytes left: returned (%d, error code %d), reached the inner connection: %v", i, l, rest+n, ns[i], rerrs[i], k >= 0), input)
+				}
+				continue
+			}
+			if k < 0 {
+				planOK = false
+				out.Fail("C17:read:inner-read-count", fmt.Sprintf("Read %d (len %d) did not reach the inner connection although nothing was buffered", i, l), input)
+				continue
+			}
+			if inner.errs[k] != rerrs[i] {
+				out.Fail("C17:read:error-not-passed-on", fmt.Sprintf("Read %d: inner Read returned (%d, error code %d), Read returned (%d, error code %d)", i, inner.gave[k], inner.errs[k], ns[i], rerrs[i]), input)
+			}
+			if ns[i] != inner.gave[k] {
+				out.Fail("C17:stream:bytes-differ", fmt.Sprintf("Read %d: inner Read returned %d bytes (error code %d) but Read returned %d", i, inner.gave[k], inner.errs[k], ns[i]), input)
+			}
+			a := inner.asked[k]
+			b := l
 			if h.totalLimiter != nil && int64(h.TotalReadBurstSize) < b {
 				b = int64(h.TotalReadBurstSize)
 			}
 			if h.ReadBurstSize > 0 && int64(h.ReadBurstSize) < b {
 				b = int64(h.ReadBurstSize)
 			}
-			if b < lens[k] {
+			if b < l {
 				clipped = true
 			}
 			if int64(a) > b {
-				out.Fail("C17:read:batch-exceeded", fmt.Sprintf("Read(p) with len(p)=%d: inner Read was given %d bytes of room, batch is %d", lens[k], a, b), input)
+				out.Fail("C17:read:batch-exceeded", fmt.Sprintf("Read(p) with len(p)=%d: inner Read was given %d bytes of room, batch is %d", l, a, b), input)
 			}
+		}
+		for k, a := range inner.asked {
 			obs = append(obs, fmt.Sprintf("(%d,%d)", a, inner.gave[k]))
 		}
-		if len(inner.asked) != len(lens) {
-			out.Fail("C17:read:inner-read-count", fmt.Sprintf("%d Reads, %d inner Reads", len(lens), len(inner.asked)), input)
+		if !planOK {
 			continue
 		}
 		cls := "read-sizes"
@@ -474,9 +535,35 @@ func v17ReadCases(out *vOut, r *vRng, n int) {
 		if withData {
 			cls += "+error-with-data"
 		}
-		out.Case(fmt.Sprintf("CRead %s %s %s %s %s [%s] [%s] %s %s", c.coq(), cZ(avail), cZ(int64(chunk2(chunk))), cZList(lens), cZList(ierrs), strings.Join(obs, ";"), strings.Join(ret, ";"), cZ(consT), cZ(consL)),
-			cls, clipped || ledger || withData, map[string]any{"cfg": c.coq(), "lens": lens, "inner_errs": ierrs, "obs": obs, "ret": ret, "final_error_mode": inner.errWith, "consumed_total": consT, "consumed_local": consL})
+		if pre > 0 {
+			cls += "+prefetched"
+		}
+		out.Case(fmt.Sprintf("CRead %s %s %s %s %s %s [%s] [%s] %s %s", c.coq(), cZ(pre), cZ(avail), cZ(int64(chunk2(chunk))), cZList(lens), cZList(ierrs), strings.Join(obs, ";"), strings.Join(ret, ";"), cZ(consT), cZ(consL)),
+			cls, clipped || ledger || withData || pre > 0, map[string]any{"cfg": c.coq(), "prefetched_left": pre, "lens": lens, "inner_errs": ierrs, "obs": obs, "ret": ret, "final_error_mode": inner.errWith, "consumed_total": consT, "consumed_local": consL})
 	}
+}
+
+// a matcher that looks at the first n bytes (more than are prefetched: it asks for more and fails)
+type v17PeekMatcher struct{ n int }
+
+func (m v17PeekMatcher) Match(cx *layer4.Connection) (bool, error) {
+	_, err := io.ReadFull(cx, make([]byte, m.n))
+	return err == nil, err
+}
+
+// prefetched bytes still buffered after Reads of the given lengths (buffered bytes are served first)
+func v17BufferLeft(pre int64, lens []int64) int64 {
+	for _, l := range lens {
+		if pre <= 0 {
+			break
+		}
+		if l < pre {
+			pre -= l
+		} else {
+			pre = 0
+		}
+	}
+	return pre
 }
 
 func chunk2(c int) int {
@@ -694,6 +781,75 @@ func v17TimedCases(out *vOut, r *vRng, n int) {
 	out.Stat("timed_bytes_pulled", total)
 }
 
+// A connection whose context is cancelled during the latency wait, then at least the latency
+// passes, then several new connections: each of them must still wait the whole latency before its
+// first read (state left behind by the cancelled wait - a timer, a channel - must not leak into
+// later connections). Run on one P with the collector off so that recycled objects, if any, are
+// met again; one retry before reporting.
+func v17LatencyAfterCancel(out *vOut) {
+	lat := 60 * time.Millisecond
+	once := func() (fails []string, conns int) {
+		h := &Handler{Latency: caddy.Duration(lat), ReadBytesPerSecond: 1e6, ReadBurstSize: 4096}
+		err, cancel := v17Provision(h)
+		defer cancel()
+		if err != nil {
+			return []string{"provision: " + err.Error()}, 0
+		}
+		prev := runtime.GOMAXPROCS(1)
+		defer runtime.GOMAXPROCS(prev)
+		gc := debug.SetGCPercent(-1)
+		defer debug.SetGCPercent(gc)
+		readOne := layer4.HandlerFunc(func(cx *layer4.Connection) error {
+			p := make([]byte, 16)
+			_, err := cx.Read(p)
+			return err
+		})
+		for round := 0; round < 3; round++ {
+			inner := &v17Inner{size: 1000}
+			cx := layer4.WrapConnection(inner, nil, zap.NewNop())
+			ctx, cancelConn := context.WithCancel(cx.Context)
+			cx.Context = ctx
+			timer := time.AfterFunc(lat/4, cancelConn)
+			herr := h.Handle(cx, readOne)
+			timer.Stop()
+			cancelConn()
+			inner.mu.Lock()
+			readHappened := !inner.first.IsZero()
+			inner.mu.Unlock()
+			if readHappened {
+				fails = append(fails, fmt.Sprintf("round %d: the connection cancelled %s into its %s latency wait was read from (Handle returned %v)", round, lat/4, lat, herr))
+			}
+			time.Sleep(lat + 30*time.Millisecond)
+			for k := 0; k < 4; k++ {
+				in2 := &v17Inner{size: 1000}
+				cx2 := layer4.WrapConnection(in2, nil, zap.NewNop())
+				entered := time.Now()
+				if herr := h.Handle(cx2, readOne); herr != nil {
+					fails = append(fails, fmt.Sprintf("round %d connection %d: %v", round, k, herr))
+				}
+				conns++
+				in2.mu.Lock()
+				first := in2.first
+				in2.mu.Unlock()
+				if !first.IsZero() && first.Sub(entered) < lat {
+					fails = append(fails, fmt.Sprintf("round %d: connection %d after a connection that was cancelled during its latency wait (and a pause of %s): first inner Read %s after Handle was entered, latency is %s", round, k, lat+30*time.Millisecond, first.Sub(entered), lat))
+				}
+			}
+		}
+		return
+	}
+	fails, conns := once()
+	if len(fails) > 0 {
+		if f2, _ := once(); len(f2) == 0 {
+			fails = nil
+		}
+	}
+	for _, f := range fails {
+		out.Fail("C17:latency:read-before-latency", f, "latency=60ms; sequence: connection cancelled 15ms into the latency wait, pause 90ms, four new connections; three rounds; GOMAXPROCS(1), GC off")
+	}
+	out.Case("", "timed:latency-after-cancel", conns > 0, map[string]any{"connections": conns, "failures": len(fails)})
+}
+
 func TestVerifC17(t *testing.T) {
 	out := vOpen()
 	defer out.Close()
@@ -707,5 +863,6 @@ func TestVerifC17(t *testing.T) {
 	if vThorough() {
 		nt = 48
 	}
+	v17LatencyAfterCancel(out)
 	v17TimedCases(out, r, nt)
 }
